@@ -105,6 +105,8 @@ ElemOf(k) == CASE k = "page" -> ePAGE [] k \in TextBoxes -> eTEXTBOX [] k = "tex
 XmlHeader(hasCodec) ==                  \* write_header: first write
   <<cLT, cQM, wXML>> \o Attr(aVERSION, <<wONEZERO>>)
   \o (IF hasCodec THEN Attr(aENCODING, <<wCODEC>>) ELSE <<>>) \o <<cSP, cQM, cGT, cLF>>
+\* the declaration with an EMPTY encoding name - what a converter writes that tests `codec is None` instead of its truth
+XmlHeaderEmptyEncoding == <<cLT, cQM, wXML>> \o Attr(aVERSION, <<wONEZERO>>) \o Attr(aENCODING, <<>>) \o <<cSP, cQM, cGT, cLF>>
 XmlRootOpen == <<cLT, ePAGES, cGT, cLF>>
 XmlFooter == CloseTag(ePAGES)
 
@@ -158,9 +160,11 @@ AllAscii(s) == \A q \in 1..Len(s) : IsAsciiChar(s[q])
 Representable(e, s) == e \in {kUTF8, kUTF16, kUTF7} \/ \A q \in 1..Len(s) : s[q] # cASTRAL /\ (e = kLATIN1 => s[q] # cWIDE)
 \* the `codec` argument a converter is given together with a TEXT sink: none, utf-8, latin-1, ascii.  What the codec could
 \* express is irrelevant there - a text sink takes characters - but a converter may (wrongly) filter by it:
-tNONE == 0   tUTF8 == 1   tLATIN1 == 3   tASCII == 7
-TextSinkCodecs == {tNONE, tUTF8, tLATIN1, tASCII}
-CharFits(t, c) == t \in {tNONE, tUTF8} \/ (t = tLATIN1 /\ c \notin {cWIDE, cASTRAL}) \/ (t = tASCII /\ c \notin {cNONASCII, cWIDE, cASTRAL})
+\* "no codec" has two spellings: None and the empty string
+tNONE == 0   tUTF8 == 1   tLATIN1 == 3   tASCII == 7   tEMPTY == 9
+TextSinkCodecs == {tNONE, tEMPTY, tUTF8, tLATIN1, tASCII}
+NoCodecSpellings == {tNONE, tEMPTY}
+CharFits(t, c) == t \in {tNONE, tEMPTY, tUTF8} \/ (t = tLATIN1 /\ c \notin {cWIDE, cASTRAL}) \/ (t = tASCII /\ c \notin {cNONASCII, cWIDE, cASTRAL})
 UnitCodec(u) == (u \div 1000) % 100
 UnitForm(u) == u \div 100000
 UnitChar(u) == u % 1000
@@ -283,7 +287,8 @@ PAttrs(s, r, el) ==
 PAttrVal(s, r, el, an, v) ==
   LET p == r.p  c == Sym(s, p) IN
   IF c = cQUOT
-  THEN PAttrs(s, [r EXCEPT !.p = p + 1, !.ev = IF el = wXML THEN r.ev ELSE Append(r.ev, Ev("attr", an, v))], el)
+  THEN IF el = wXML /\ v = <<>> THEN Fail(r, 11)       \* XML 1.0 [80]/[26]: an encoding name / version number is not empty
+       ELSE PAttrs(s, [r EXCEPT !.p = p + 1, !.ev = IF el = wXML THEN r.ev ELSE Append(r.ev, Ev("attr", an, v))], el)
   ELSE IF c = 0 \/ c = cLT THEN Fail(r, 9)
   ELSE IF c = cAMP THEN
     LET en == EntityAt(s, p) IN
